@@ -1,3 +1,143 @@
-/- C20: property theorems (none yet). -/
+/-
+C20 — Function listeners see every call, correctly bracketed.
+
+Theorems about `Wz.Model.Listener.run` (the event stream of a call forest as each engine produces it).
+Engine variants (`Engine` record = the finding switches): `interpAsIs`, `wazevoAsIs` (the code as it is) and
+`repaired`.  The harness selects, per engine, the variant that the real code is tied to on each run.
+-/
+import Wz.Model.Listener
+import Wz.Proofs.C20_Bracket
+import Wz.Proofs.C20_Project
+
 namespace Wz.C20
+open Wz.Model.Listener
+
+/-! ### Bracketing -/
+
+/-- General form: any engine variant brackets its events on every forest that meets `good`
+(no in-place/jump tail call, overflow panics without announcing the call, chains within the abort cap). -/
+theorem events_bracketed_of_good (E : Engine) (C : Cfg) (fr : Forest) (h : good E C 0 fr = true) :
+    WellBracketed (events E C fr) := by
+  have := run_post E C fr true [] [] 0 h rfl
+  unfold WellBracketed events
+  simp only [Post, if_true] at this
+  cases hr : (run E C true [] fr).2 with
+  | none => rw [hr] at this; exact this
+  | some fl => rw [hr] at this; exact this
+
+theorem good_repaired (C : Cfg) : ∀ fr d, good repaired C d fr = true := by
+  intro fr
+  induction fr with
+  | done => intro d; rfl
+  | call tail f args body out next ihb ihn =>
+    intro d
+    have hb := ihb (if C.host f = true then 0 else d + 1)
+    have hn := ihn d
+    unfold repaired at hb hn
+    simp only [good, repaired, Bool.or_self, Bool.and_false, Bool.not_false, Bool.not_false, Bool.and_self,
+      Bool.or_true, Bool.true_and, hb, hn]
+
+/-- FULL STRENGTH (repaired variant): for every call forest (every call form, nesting, traps, exits, host
+panics, overflow, tail calls), every host/listener assignment: every `Before` is matched by exactly one
+`After`/`Abort`, properly nested. -/
+theorem events_bracketed (C : Cfg) (fr : Forest) : WellBracketed (events repaired C fr) :=
+  events_bracketed_of_good repaired C fr (good_repaired C fr 0)
+
+theorem good_of_syntactic (E : Engine) (C : Cfg) (c : Nat) (hc : E.abortCap = some c) :
+    ∀ fr d, noTail fr = true → noOverflow fr = true → fits C c d fr = true → good E C d fr = true := by
+  intro fr
+  induction fr with
+  | done => intro d _ _ _; rfl
+  | call tail f args body out next ihb ihn =>
+    intro d ht ho hf
+    simp only [noTail, noOverflow, fits, Bool.and_eq_true, Bool.not_eq_true', bne_iff_ne, ne_eq, decide_eq_true_eq] at ht ho hf
+    obtain ⟨⟨ht1, ht2⟩, ht3⟩ := ht
+    obtain ⟨⟨ho1, ho2⟩, ho3⟩ := ho
+    obtain ⟨⟨hf1, hf2⟩, hf3⟩ := hf
+    simp only [good, hc, ht1, Bool.false_and, Bool.not_false, Bool.true_and, Bool.and_eq_true, Bool.or_eq_true,
+      bne_iff_ne, ne_eq, decide_eq_true_eq]
+    exact ⟨⟨⟨Or.inl ho1, hf1⟩, ihb _ ht2 ho2 hf2⟩, ihn _ ht3 ho3 hf3⟩
+
+/-- PARTIAL (interpreter as it is).  Full statement: `∀ C fr, WellBracketed (events interpAsIs C fr)` — false:
+`deep_unwind_witness`, `interp_overflow_witness`, `interp_tail_witness`.  Proved under: no call chain inside
+one call engine deeper than 30 frames, no stack overflow, no tail call. -/
+theorem events_bracketed_interp_partial (C : Cfg) (fr : Forest)
+    (ht : noTail fr = true) (ho : noOverflow fr = true) (hf : fits C 30 0 fr = true) :
+    WellBracketed (events interpAsIs C fr) :=
+  events_bracketed_of_good _ C fr (good_of_syntactic _ C 30 rfl fr 0 ht ho hf)
+
+/-- PARTIAL (compiler as it is).  Full statement false: `wazevo_deep_unwind_witness`,
+`overflow_no_abort_witness`, `wazevo_tail_witness`. Same hypotheses as for the interpreter. -/
+theorem events_bracketed_wazevo_partial (C : Cfg) (fr : Forest)
+    (ht : noTail fr = true) (ho : noOverflow fr = true) (hf : fits C 30 0 fr = true) :
+    WellBracketed (events wazevoAsIs C fr) :=
+  events_bracketed_of_good _ C fr (good_of_syntactic _ C 30 rfl fr 0 ht ho hf)
+
+/-! ### Witnesses of the findings (concrete counterexamples, evaluated by the kernel) -/
+
+def allOn : Cfg := { host := fun f => f == 3, lsn := fun _ => true }
+
+/-- 31 nested calls (f1/f2 alternating), the innermost executes `unreachable`. -/
+def deep31 : Forest := chain 1 2 30 (.node 1 [0] .done (.fail .unreachable))
+/-- unbounded recursion cut off by the engine after 5 frames (the depth is implementation-defined). -/
+def overflow5 : Forest := chain 1 2 5 (.node 2 [0] .done (.fail .overflow))
+/-- f1 leaves through `return_call f2`. -/
+def tail12 : Forest := .node 1 [] (.call true 2 [3] .done (.ret [10]) .done) (.ret [10])
+
+/-- F22: the interpreter as it is leaves the outermost of 31 frames open. -/
+theorem deep_unwind_witness : ¬ WellBracketed (events interpAsIs allOn deep31) := by decide
+/-- F22 (compiler): same cap through `UnwindStack`. -/
+theorem wazevo_deep_unwind_witness : ¬ WellBracketed (events wazevoAsIs allOn deep31) := by decide
+/-- F21: the compiler as it is delivers no `Abort` at all on stack overflow. -/
+theorem overflow_no_abort_witness : ¬ WellBracketed (events wazevoAsIs allOn overflow5) := by decide
+/-- F22b: the interpreter announces the call that overflows (Before) although it never gets a frame. -/
+theorem interp_overflow_witness : ¬ WellBracketed (events interpAsIs allOn overflow5) := by decide
+/-- F31: interpreter, in-place tail call: the callee gets no events at all (here the stream stays
+bracketed but the call of f2 is invisible) ... -/
+theorem interp_tail_witness :
+    events interpAsIs allOn tail12 = [.before 1 [] [1], .after 1 [10]] := by decide
+/-- F32: compiler, tail call as a jump: the caller is never closed. -/
+theorem wazevo_tail_witness : ¬ WellBracketed (events wazevoAsIs allOn tail12) := by decide
+/-- F30: the compiler's stack iterator lists 29 of the 31 frames at the innermost `Before`. -/
+theorem wazevo_stack_truncated_witness :
+    ((events wazevoAsIs allOn deep31).filterMap (fun e => match e with
+      | .before _ [0] s => some s.length | _ => none)) = [29] := by decide
+/-- the repaired variant on the same inputs (test, not a proof of the general statement) -/
+example : WellBracketed (events repaired allOn deep31) := by decide
+example : WellBracketed (events repaired allOn overflow5) := by decide
+example : events repaired allOn tail12 = [.before 1 [] [1], .before 2 [3] [2, 1], .after 2 [10], .after 1 [10]] := by decide
+
+/-- non-vacuity of the `_partial` hypotheses: a 30-frame chain with a host call-back that traps meets them -/
+example : noTail (chain 1 2 29 (.node 3 [] (.node 1 [7] .done (.fail .divZero)) (.ret []))) = true ∧
+    noOverflow (chain 1 2 29 (.node 3 [] (.node 1 [7] .done (.fail .divZero)) (.ret []))) = true ∧
+    fits allOn 30 0 (chain 1 2 29 (.node 3 [] (.node 1 [7] .done (.fail .divZero)) (.ret []))) = true := by decide
+
+/-! ### Listener subsets: results and events -/
+
+/-- `results_independent_of_listeners`: the outcome of a run (which failure, if any, and the frames unwound)
+is the same for every listener assignment — for every engine variant and forest. (The values returned are tree data;
+that the real engines return the same values with and without listeners is checked by the harness monitor.) -/
+theorem results_independent_of_listeners (E : Engine) (host : Nat → Bool) (S S' : Nat → Bool) (fr : Forest) :
+    result E ⟨host, S⟩ fr = result E ⟨host, S'⟩ fr := by
+  unfold result
+  rw [(run_project E host S fr true []).2, (run_project E host S' fr true []).2]
+
+/-- `subset_events_are_projection`: what a listener subset `S` sees is exactly the projection of what all listeners
+see — same order, same parameters/results, same stack snapshots. For every engine variant and forest. -/
+theorem subset_events_are_projection (E : Engine) (host : Nat → Bool) (S : Nat → Bool) (fr : Forest) :
+    events E ⟨host, S⟩ fr = (events E ⟨host, fun _ => true⟩ fr).filter (fun e => S e.fn) :=
+  (run_project E host S fr true []).1
+
+/-
+Not proved here (left out for time; covered by ties B and C on the real code):
+* `stack_iterator_is_chain`: in the model the snapshot at a `Before` is `snapshot E (f :: st)` where `st` is the chain of the
+  enclosing calls of the same call engine, all frames with or without listener, by construction of `run`;
+  `subset_events_are_projection` shows it does not depend on the listener set, `wazevo_stack_truncated_witness` shows the
+  as-is compiler truncates it (F30). The harness monitor `chainMonitor` checks it against the open-call stack of the real stream.
+* `params_results_actual`: `Before`/`After` carry the `args`/`vals` of their node by construction of `run`; the real values are
+  compared with the reference evaluator's through the model (tie B).
+* `engines_same_events`: the as-is variants differ only in `beforeAtOverflow/overflowPanics/tail*/stackCap`; equality of the two
+  real engines' streams is checked directly by the harness (`C20:engines-differ`).
+-/
+
 end Wz.C20
